@@ -219,9 +219,14 @@ def _op_bvp(ctx, op, state):
     ctx.rng.set_behaviour(beh, bseed)
     calls0 = ctx.rng.calls
     budget = {} if (dense and o.get("default_budget")) else {"max_nodes": MAX_NODES}
+    if o.get("budget") and not dense:
+        # a caller that allows only a few mesh nodes: the library may well say "did not converge" - but if it returns a
+        # solution, that solution has to be right
+        budget = {"max_nodes": max(int(o["budget"]), int(x.size) + 2)}
+        ctx.probes.hit("bvp-with-small-node-budget")
     oc = _outcome(lambda: solve_ode_bvp(x, fx, coeffs, bd, transform=tf, tol=P["tol"], initial_guess_y=guess, no_derivatives=not derivs, **budget))
     drew = ctx.rng.calls > calls0
-    if oc[0] == "raise" and not budget and "converge" in str(oc[1]):
+    if oc[0] == "raise" and (not budget or o.get("budget")) and "converge" in str(oc[1]):
         # with the default budget of 5000 nodes a fine mesh may leave no room for the refinement a tight tolerance asks
         # for: the library says so, which is fine
         ctx.probes.hit("dense-mesh-default-budget-exhausted")
@@ -338,7 +343,7 @@ def _op_bvp(ctx, op, state):
                 ctx.violate("scalar-vs-array", "bvp", sig, f"solution callable at the scalar {xs} gives {vs}, at the array element {float(y0[7])}")
             ctx.probes.hit("scalar-evaluation-compared")
     h = hash_array(yc)
-    rk = (mode_key, beh, bseed, derivs, o.get("guess"), bool(o.get("share_tf")), dense, bool(o.get("default_budget")))
+    rk = (mode_key, beh, bseed, derivs, o.get("guess"), bool(o.get("share_tf")), dense, bool(o.get("default_budget")), o.get("budget"))
     if o.get("share_tf"):
         pass  # sharing changes the object history, bit-equality is only demanded for fresh transforms
     elif rk in state["bits"]:
@@ -603,6 +608,8 @@ class OdeSeamEngine:
                 beh = rng.choice(BEHAVIOURS)
                 o = {"derivs": rng.random() < 0.8, "share_tf": rng.random() < 0.3, "own_inputs": rng.random() < 0.25, "ti": rng.randrange(3),
                      "reentrant": rng.random() < 0.12}
+                if rng.random() < 0.08:
+                    o["budget"] = rng.choice([40, 60, 100, 200, 400])
                 if rng.random() < 0.08:
                     o["dense"] = rng.choice([100, 333, 600, 1000, 2000])
                     o["default_budget"] = rng.random() < 0.6
